@@ -358,12 +358,13 @@ Definition process_answer (cfg : config) (st : chan) (cn : conn) (sv : server)
       let '(st1, outs) := close_connection cfg st (cn_id cn) ARES_EBADRESP in
       Ok (st1, OServerFail (sv_idx sv) tag :: OConnError (cn_id cn) :: outs)
   | DParsed p =>
+      if cf_fix_qr cfg && negb (p_qr p) then Ok (st, [])       (* not a response *)
+      else
       match find_query st (p_id p) with
       | None => Ok (st, [])
       | Some q =>
           if negb (same_questions cfg q p) then Ok (st, [])
           else if cf_fix_conn cfg && negb (opt_z_eqb (q_conn q) (Some (cn_id cn))) then Ok (st, [])
-          else if cf_fix_qr cfg && negb (p_qr p) then Ok (st, [])
           else
           do r <- cookie_validate cfg st q p sv now_sec now_usec;
           let '(st1, outs1, v) := r in
@@ -580,6 +581,29 @@ Definition authentic_for (cfg : config) (st : chan) (c src : Z) (p : packet) : o
           match find (authentic_b cfg cn sv src p) (ch_queries st) with
           | Some q => Some (q_tok q)
           | None => None
+          end
+      end
+  end.
+
+(* why the specification rejects a packet for every live query (statistics / case classes):
+   0 authentic for some query, 1 no live query has this id, then the first failing conjunct of
+   the query with this id: 2 question, 3 connection, 4 source address, 5 QR, 6 cookie *)
+Definition reject_reason (cfg : config) (st : chan) (c src : Z) (p : packet) : Z :=
+  match find_conn st c with
+  | None => 7
+  | Some cn =>
+      match find_server st (cn_server cn) with
+      | None => 7
+      | Some sv =>
+          match find_query st (p_id p) with
+          | None => 1
+          | Some q =>
+              if negb (questions_match cfg cn q p) then 2
+              else if negb (opt_z_eqb (q_conn q) (Some (cn_id cn))) then 3
+              else if negb (cn_tcp cn || (src =? sv_addr sv)) then 4
+              else if negb (p_qr p) then 5
+              else if negb (cookie_ok (sv_cookie sv) q p) then 6
+              else 0
           end
       end
   end.
